@@ -3,6 +3,7 @@ SparkSQL adapter for the data algebra.
 """
 
 import data_algebra.data_ops
+import data_algebra.expr_rep
 import data_algebra.db_model
 
 
@@ -50,15 +51,29 @@ def _sparksql_coalesce_expr(dbmodel, expression) -> str:
     Return coalesce expression.
     """
 
+    def coalesce_args(e) -> list:
+        """
+        The arguments of a chain of coalesce() calls, in order (one CASE for the whole chain:
+        nesting the CASEs repeats every argument text in every level).
+        """
+        if isinstance(e, data_algebra.expr_rep.Expression) and (e.op == "coalesce"):
+            res = []
+            for ai in e.args:
+                res = res + coalesce_args(ai)
+            return res
+        return [e]
+
     def coalesce_step(x: str) -> str:
         """
         Return one caes of coalesce.
         """
         assert isinstance(x, str)
-        # isNaN() casts its argument to DOUBLE: asked of numbers only (text fails the cast under ANSI mode, and 'NaN' is a text)
+        # isNaN() is asked of numbers only, and through text so it type-checks for every column type
+        # (the branch is only taken for numbers)
         return (
             f" WHEN ({x} IS NOT NULL) AND"
-            f" (CASE WHEN typeof({x}) IN ('double', 'float') THEN NOT isNaN({x}) ELSE TRUE END)"
+            f" (CASE WHEN typeof({x}) IN ('double', 'float')"
+            f" THEN NOT isNaN(CAST(CAST({x} AS STRING) AS DOUBLE)) ELSE TRUE END)"
             f" THEN {x} "
         )
 
@@ -67,7 +82,8 @@ def _sparksql_coalesce_expr(dbmodel, expression) -> str:
         + " ".join(
             [
                 coalesce_step(dbmodel.expr_to_sql(ai, want_inline_parens=False))
-                for ai in expression.args
+                for arg in expression.args
+                for ai in coalesce_args(arg)
             ]
         )
         + " ELSE NULL END"
